@@ -7,7 +7,7 @@ use hifitime::{Duration, Epoch, TimeScale};
 use proptest::prelude::*;
 use serde::{Deserialize, Serialize};
 
-pub const RULE: &str = "all 36 ordered pairs of the six uniform scales (drawn uniformly, so each pair gets 1/36 of the cases) x generated counts (dense within +-10 000 years, then out to the bounds) x a generated duration; oracle = count_B = count_A + zero_A - zero_B with the zeros computed from the civil reference dates and lags of the statement; non-trivial = source != target and (count negative in source or target, or the two counts have different century fields); the constants sub-check is an exhaustive enumeration; distinct = distinct case tuples (hash set, capped: lower bound)";
+pub const RULE: &str = "all 36 ordered pairs of the six uniform scales (drawn uniformly, so each pair gets 1/36 of the cases) x generated counts (dense within +-10 000 years, then out to the bounds) x a generated duration; oracle = count_B = count_A + zero_A - zero_B with the zeros computed from the civil reference dates and lags of the statement; non-trivial = source != target and (count negative in source or target, or the two counts have different century fields); the constants sub-check is an exhaustive enumeration; distinct = distinct case tuples (hash set, capped: lower bound); walks (c05.chain): non-trivial = at least two conversions to a different scale and the walk passes through three or more scales or before a reference epoch";
 
 pub const ASSUMPTIONS: &[&str] = &[
     "offsets are computed in the harness from the civil dates 1900-01-01, 1980-01-06, 1999-08-22, 2006-01-01 and the lags 0, -32.184, 19, 19, 19, 33 s of the statement, not copied from the source",
